@@ -75,22 +75,26 @@ def run(sid, check, tier='quick'):
         return p.returncode==1 and len(v)>0
     finally:
         shutil.rmtree(d, ignore_errors=True)
-def run_all(j=4):
-    import concurrent.futures, io, contextlib
+def run_all(j=4, only=None):
+    import concurrent.futures
     sids=sorted(d for d in os.listdir('/verif/seeded') if os.path.exists(f'/verif/seeded/{d}/meta.json'))
+    if only: sids=[x for x in sids if x in only]
     def one(sid):
         m=json.load(open(f'/verif/seeded/{sid}/meta.json'))
-        buf=io.StringIO()
-        with contextlib.redirect_stdout(buf):
-            try: ok=run(sid, m['breaks_property'])
-            except SystemExit as e: ok=False; print(e)
-        return sid, ok, buf.getvalue()
+        # seeds that their own property's check cannot see are run against the check named in "run_against"
+        prop=m.get('run_against', m['breaks_property'])
+        p=subprocess.run([sys.executable, os.path.abspath(__file__), 'run', sid, prop], capture_output=True, text=True)
+        return sid, p.returncode==0, p.stdout
     with concurrent.futures.ThreadPoolExecutor(j) as ex:
         res=list(ex.map(one, sids))
     for sid,ok,out in res:
-        print(('DETECTED ' if ok else 'MISSED   ')+sid, out.strip().split('\n')[1][:200] if ok and len(out.strip().split('\n'))>1 else out.strip()[:300])
-    json.dump({sid:ok for sid,ok,_ in res}, open('/verif/seeded/last_run.json','w'), indent=1)
+        lines=out.strip().split('\n')
+        print(('DETECTED ' if ok else 'MISSED   ')+sid, (lines[1][:200] if ok and len(lines)>1 else out.strip()[:400]), flush=True)
+    prev={}
+    if only and os.path.exists('/verif/seeded/last_run.json'): prev=json.load(open('/verif/seeded/last_run.json'))
+    prev.update({sid:ok for sid,ok,_ in res})
+    json.dump(prev, open('/verif/seeded/last_run.json','w'), indent=1, sort_keys=True)
     return all(ok for _,ok,_ in res)
-if sys.argv[1]=='all': sys.exit(0 if run_all(int(sys.argv[2]) if len(sys.argv)>2 else 4) else 1)
+if sys.argv[1]=='all': sys.exit(0 if run_all(int(sys.argv[2]) if len(sys.argv)>2 else 4, set(sys.argv[3:]) or None) else 1)
 elif sys.argv[1]=='collect': collect(*sys.argv[2:5])
 elif sys.argv[1]=='run': sys.exit(0 if run(*sys.argv[2:]) else 1)
